@@ -110,7 +110,11 @@ class NamedUIDObject(BaseModelWithJson):
         # workaround to avoid heavy hash computations
         assertion_hash = hash(z3_assertion)
         if assertion_hash in self._z3_assertion_hashes:
-            raise AssertionError(f"assertion {z3_assertion} already added.")
+            # the same assertion twice does not change the meaning of the
+            # element: it is kept once (the hash alone could be a collision)
+            for known_assertion in self._z3_assertions:
+                if known_assertion.eq(z3_assertion):
+                    return False
         self._z3_assertions.append(z3_assertion)
         self._z3_assertion_hashes.append(assertion_hash)
         return True
